@@ -453,6 +453,9 @@ func (s *sys) Do(op string) (obs string, v *eng.Violation) {
 		if err != nil || n != len(b) {
 			return "err", s.viol("write-bad-result", "Write", fmt.Sprintf("Write(%q)=%d,%v", b, n, err)+hidden, append(feat, "error_class", errClass(err)))
 		}
+		if len(b) > 0 && !mod.VerifC10Snapshot(s.dm).HasBuf {
+			theRun.Add("execs_write_triggered_autoflush", 1)
+		}
 		s.modelWriteAt(b, s.cur)
 		s.cur += int64(len(b))
 		return "ok", nil
@@ -531,6 +534,14 @@ func (s *sys) Do(op string) (obs string, v *eng.Violation) {
 		if !ok {
 			if err == nil {
 				return "accepted", s.viol("seek-result-mismatch", "Seek", desc+"; io.Seeker: seeking before the start / with an invalid whence is an error"+hidden, feat)
+			}
+			if s.curKnown && post.CurWrOff != pre.CurWrOff {
+				// the failed call moved the hidden cursor: observe it right away
+				// (the end-of-path cursor query is skipped when the model cursor
+				// lies past the end, which would let this slip to a later call)
+				if o, e := s.dm.Seek(0, io.SeekCurrent); e != nil || o != s.cur {
+					return "rejected-moved", s.viol("cursor-mismatch", "Seek", desc+fmt.Sprintf("; the call failed, yet Seek(0,SeekCurrent) now returns %d,%v where the file model's cursor is still %d", o, e, s.cur)+hidden, feat)
+				}
 			}
 			return "rejected", nil
 		}
